@@ -304,6 +304,21 @@ func (fb *fnBounds) kills(in ssa.Instruction, cls string) bool {
 		if callee == nil {
 			if mc, ok := com.Value.(*ssa.MakeClosure); ok {
 				callee = mc.Fn.(*ssa.Function)
+			} else if ts, ok := fb.bp.dynTargets(t); ok && !strings.HasPrefix(cls, "cell:") {
+				// one of a known set of in-module functions: the union of their effects
+				for _, tg := range ts {
+					if strings.HasPrefix(cls, "fld:") {
+						for fk := range fb.bp.eff.trans[tg] {
+							if cls == "fld:"+fk.String() {
+								return true
+							}
+						}
+					}
+					if strings.HasPrefix(cls, "elem:") && fb.bp.eff.transElem[tg][strings.TrimPrefix(cls, "elem:")] {
+						return true
+					}
+				}
+				return false
 			} else {
 				return true
 			}
@@ -906,6 +921,55 @@ func (fb *fnBounds) condConstraints(c ssa.Value, pol bool, at ssa.Instruction, d
 	return nil
 }
 
+// dynTargets: the in-module functions a dynamic call can reach according to the call graph, with
+// synthetic thunks / bound-method wrappers replaced by the method they forward to. ok is false when a
+// target is unknown or outside the module.
+func (bp *boundsProver) dynTargets(call ssa.CallInstruction) ([]*ssa.Function, bool) {
+	p := bp.p
+	if p.CG == nil {
+		return nil, false
+	}
+	n := p.CG.Nodes[call.Parent()]
+	if n == nil {
+		return nil, false
+	}
+	var out []*ssa.Function
+	seen := map[*ssa.Function]bool{}
+	for _, e := range n.Out {
+		if e.Site != call {
+			continue
+		}
+		f := e.Callee.Func
+		for i := 0; i < 3 && f != nil && f.Synthetic != "" && !p.InModule(f); i++ {
+			// the wrapper's single static in-module callee
+			var inner *ssa.Function
+			cnt := 0
+			for _, b := range f.Blocks {
+				for _, in := range b.Instrs {
+					if ci, ok := in.(ssa.CallInstruction); ok {
+						if c := ci.Common().StaticCallee(); c != nil {
+							inner = c
+							cnt++
+						}
+					}
+				}
+			}
+			if cnt != 1 {
+				return nil, false
+			}
+			f = inner
+		}
+		if f == nil || !p.InModule(f) {
+			return nil, false
+		}
+		if !seen[f] {
+			seen[f] = true
+			out = append(out, f)
+		}
+	}
+	return out, len(out) > 0
+}
+
 // nilFacts: consequences of ref == nil (isNil) or ref != nil.
 func (fb *fnBounds) nilFacts(ref ssa.Value, isNilCase bool, at ssa.Instruction) []constraint {
 	call, ok := ref.(*ssa.Call)
@@ -914,7 +978,56 @@ func (fb *fnBounds) nilFacts(ref ssa.Value, isNilCase bool, at ssa.Instruction) 
 	}
 	callee := call.Call.StaticCallee()
 	if callee == nil {
-		return nil
+		// a nil result of a call to one of a known set of functions: a field is unchanged if none of
+		// them writes it on a path to a possibly-nil return
+		ts, ok := fb.bp.dynTargets(call)
+		if !ok || !isNilCase {
+			return nil
+		}
+		var cs []constraint
+		for i, a := range call.Call.Args {
+			pt, ok := a.Type().Underlying().(*types.Pointer)
+			if !ok {
+				continue
+			}
+			n, st := namedStruct(pt.Elem())
+			if n == nil {
+				continue
+			}
+			_ = i
+			for fi := 0; fi < st.NumFields(); fi++ {
+				f := st.Field(fi)
+				fk := fieldKey{Struct: n.String(), Field: f.Name()}
+				written, anyWrites := false, false
+				for _, tg := range ts {
+					nm := fb.bp.nilModsOf(tg)
+					if nm == nil {
+						written = true
+						break
+					}
+					if fb.bp.eff.trans[tg][fk] {
+						anyWrites = true
+						if nm[fk] {
+							written = true
+						}
+					}
+				}
+				if written || !anyWrites {
+					continue
+				}
+				cls := "fld:" + fk.String()
+				before := fmt.Sprintf("mem(%s.%s@%s)", fb.vid(a, call), f.Name(), fb.versionAt(cls, call))
+				after := fmt.Sprintf("mem(%s.%s@%s)", fb.vid(a, call), f.Name(), fb.versionAfter(cls, call))
+				why := fmt.Sprintf("the call returned nil: no possible target writes %s.%s on a path to a possibly-nil return", n.Obj().Name(), f.Name())
+				switch {
+				case isIntType(f.Type()):
+					cs = append(cs, eqs(linVar(before), linVar(after), why)...)
+				case isStringType(f.Type()) || kindOf(f.Type()) == KSlice:
+					cs = append(cs, eqs(linVar("len:"+before), linVar("len:"+after), why)...)
+				}
+			}
+		}
+		return cs
 	}
 	if callee.String() == "(*regexp.Regexp).FindStringIndex" && !isNilCase {
 		// non-nil result: a pair [lo, hi] with 0 ≤ lo ≤ hi ≤ len(s)
